@@ -156,10 +156,11 @@ pub fn spec() -> CheckSpec {
     CheckSpec {
         id: "C03",
         level: "exploration",
-        rule: "membership-churn world runs (adds, removals, leaves with admin auto-commit, self-updates, id rotations, re-invites, two groups sharing members), every message carrying a unique canary; ex-members keep their storage (incl. past exporter secrets) and keep being handed every event of the group in seeded orders, repeatedly; clients that never held the group are handed its events and invitations addressed to others (they must refuse, hold nothing, store nothing); oracle after every call: a client stores / is returned a message only if its identity is in the member set (ground-truth ledger) of the state the message was sent in; evicted => record inactive and create_message fails; final byte scan of unencrypted SQLite files for foreign canaries; non-trivial = a removal, a later message, and that message fed to the ex-member; distinct = delivery signature",
+        rule: "membership-churn world runs (adds, removals, leaves with admin auto-commit, self-updates, id rotations, re-invites, two groups sharing members), every message carrying a unique canary; ex-members keep their storage (incl. past exporter secrets) and keep being handed every event of the group in seeded orders, repeatedly; clients that never held the group are handed its events and invitations addressed to others (they must refuse, hold nothing, store nothing); oracle after every call: a client stores / is returned a message only if its identity is in the member set (ground-truth ledger) of the state the message was sent in; evicted => record inactive and create_message fails; final byte scan of unencrypted SQLite files for foreign canaries; non-trivial = a removal, a later message, and that message fed to the ex-member; distinct = delivery signature; variant multi-device: users with 1-3 devices (one identity, one leaf and one storage per device), a single admin adds and removes USERS (also two by one commit), every device keeps being handed every event: ground truth per user and epoch, same clauses, plus: after a removal the admin's roster no longer lists the identity",
         variants: vec![
             Variant { name: "mem", profile: Profile { backend: BackendMix::Memory, ..base.clone() }, runs_quick: 300, runs_thorough: 15000, oracle: mk, guarded: false, configure_gen: Some(churn), post: None, custom: None },
             Variant { name: "mixed", profile: Profile { backend: BackendMix::Mixed, allow_restart: true, ..base.clone() }, runs_quick: 100, runs_thorough: 5000, oracle: mk, guarded: false, configure_gen: Some(churn), post: None, custom: None },
+            Variant { name: "multi-device", profile: Profile { backend: BackendMix::Mixed, steps_lo: 15, steps_hi: 40, ..base.clone() }, runs_quick: 300, runs_thorough: 20000, oracle: super::c10::mk_nop, guarded: false, configure_gen: None, post: None, custom: Some(super::multidev::run) },
         ],
         assumptions: vec!["member sets per state come from the first honest client that exhibited the state"],
         real: super::REAL.to_vec(),
